@@ -138,6 +138,55 @@ def vlqChunks (v : Vlq) (acc : List Int) : List Bytes → List Int × String
     | none => (acc, "ERR:varint")
     | some (v', acc') => vlqChunks v' acc' cs
 
+/-! JSON -/
+
+def sliceStr (t : Tape) (i : Nat) : Bytes :=
+  match t.offsets[i]?, t.offsets[i + 1]? with
+  | some a, some b => (t.bytes.drop a).take (b - a)
+  | _, _ => []
+
+/-- the values of the rows of a flushed tape, as the Utf8 column the harness decodes them to
+(`coerce_primitive`: numbers and booleans by their text; nested values and null → null) -/
+def rowValues (t : Tape) : List String :=
+  let rec go (fuel idx : Nat) (acc : List String) : List String :=
+    match fuel with
+    | 0 => acc
+    | fuel + 1 =>
+      match t.elements[idx]? with
+      | none => acc
+      | some (.string i) => go fuel (idx + 1) (acc ++ [toHex (sliceStr t i)])
+      | some (.number i) => go fuel (idx + 1) (acc ++ [toHex (sliceStr t i)])
+      | some .true_ => go fuel (idx + 1) (acc ++ [toHex Lit.true_.bytes])
+      | some .false_ => go fuel (idx + 1) (acc ++ [toHex Lit.false_.bytes])
+      | some .null => go fuel (idx + 1) (acc ++ ["N"])
+      | some (.startObject e) => go fuel (e + 1) (acc ++ ["N"])
+      | some (.startList e) => go fuel (e + 1) (acc ++ ["N"])
+      | some _ => acc
+  go (t.elements.length + 1) 1 []
+
+/-- mode `s`: the root struct decoder rejects a row that is not an object -/
+def rowsAreObjects (t : Tape) : Bool :=
+  let rec go (fuel idx : Nat) : Bool :=
+    match fuel with
+    | 0 => true
+    | fuel + 1 =>
+      match t.elements[idx]? with
+      | none => true
+      | some (.startObject e) => go fuel (e + 1)
+      | some _ => false
+  go (t.elements.length + 1) 1
+
+def showJson (cfg : JCfg) (mode : String) (r : JState × List Tape) : String :=
+  let fin := jFinish cfg r.1
+  let batches := r.2 ++ fin.1
+  let verdict := match fin.2 with
+    | none => "ok"
+    | some .syntax => "ERR:decode"
+    | some .flush => "ERR:flush"
+  let base := s!"rows={showList (fun (t : Tape) => toString t.curRow) batches} r={verdict}"
+  if mode = "s" then base
+  else s!"{base} v={showList id (batches.map rowValues).flatten}"
+
 def check (model : String) (others : List (String × String)) : String :=
   match others.find? (fun o => o.2 != model) with
   | none => model
@@ -181,7 +230,20 @@ def handle (toks : List String) : String :=
         check (sh r) [("single", sh one)]
       | none => "bad-op"
     | _, _ => "bad-op"
-  | "json" :: _ => "SKIP"
+  | ["json", mode, bs, hex, chunks] =>
+    match bs.toNat?, parseHex hex, parseList String.toNat? chunks with
+    | some bs, some xs, some sizes =>
+      match splitChunks xs sizes with
+      | some cs =>
+        let cfg : JCfg := ⟨bs, mode == "f", if mode == "s" then rowsAreObjects else fun _ => true⟩
+        let chunked := runChunks (jFeed cfg) jInit cs
+        let model := showJson cfg mode chunked
+        -- no emitted batch may exceed the batch size
+        if (chunked.2 ++ (jFinish cfg chunked.1).1).any (fun t => t.curRow > bs) then
+          s!"MODEL-SPEC-MISMATCH batch larger than batch_size in {model}"
+        else check model [("single", showJson cfg mode (jFeed cfg jInit xs))]
+      | none => "bad-op"
+    | _, _, _ => "bad-op"
   | "csv" :: _ => "SKIP"
   | "ipcx" :: _ => "SKIP"
   | "avro" :: _ => "SKIP"
